@@ -19,7 +19,9 @@ from facts import short
 from templates import memo_rule, global_state_holders, global_state_uses
 
 WORKSPACE = ["nitrogql_", "graphql_loader", "sourcemap_writer", "graphql_type_system", "graphql_builtins"]
-OTP = ["nitrogql_printer::operation_type_printer", "nitrogql_printer::ts_types", "nitrogql_printer::utils"]
+OTP = ["nitrogql_printer::operation_type_printer", "nitrogql_printer::ts_types"]
+# helper modules shared by several printers: a function of these is in a property's scope only when the property's own code reaches it
+SHARED = ["nitrogql_printer::utils"]
 SCOPES = {
     "C01": (OTP, "the Result type printed for one selection set is computed from another's"),
     "C02": (OTP, "the Result type printed for one selection set is computed from another's"),
@@ -34,10 +36,10 @@ SCOPES = {
     "C08": (["nitrogql_parser", "nitrogql_error"], "state left by an earlier call makes a later call take an unreviewed path"),
     "C09": (OTP + ["nitrogql_printer::schema_type_printer", "nitrogql_config_file::scalar_type"], "the Variables type depends on earlier documents"),
     "C10": (["nitrogql_printer::schema_type_printer", "nitrogql_printer::resolver_type_printer", "nitrogql_printer::ts_types", "nitrogql_printer::jsdoc",
-             "nitrogql_printer::utils", "nitrogql_plugin"], "declarations printed for one schema are computed from another's"),
+             "nitrogql_plugin"], "declarations printed for one schema are computed from another's"),
     "C11": (["nitrogql_semantics::schema_extension_resolver"], "an extension is merged according to state left by another definition"),
     "C12": (["nitrogql_printer::json_printer", "nitrogql_printer::operation_js_printer", "nitrogql_printer::operation_base_printer",
-             "nitrogql_printer::utils", "graphql_loader::js_printer"], "the fragments embedded for one definition depend on earlier definitions or documents"),
+             "graphql_loader::js_printer"], "the fragments embedded for one definition depend on earlier definitions or documents"),
     "C13": (["nitrogql_semantics::operation_import_resolver", "nitrogql_semantics::operation_extension_resolver"], "a file is skipped or re-expanded according to state from another traversal"),
     "C14": (["nitrogql_printer::operation_base_printer", "nitrogql_printer::operation_js_printer", "nitrogql_printer::operation_type_printer::visitor",
              "nitrogql_printer::operation_type_printer::mod", "graphql_loader::js_printer"], "names or exports follow options remembered from an earlier configuration"),
@@ -74,11 +76,18 @@ def _reviewed_holder(path, ty):
 def state_rules(P, R, prop):
     rule = "R%s-s" % prop[1:]
     prefixes, what = SCOPES[prop]
-    memo_rule(P, R, rule, prefixes, what)
+    own = [f for p, f in P.fns.items() if not f.derived and "::tests" not in p and any(p.startswith(x) or p.startswith("<" + x) for x in prefixes)]
+    allow = set()
+    if not any(any(x.startswith(sh) or sh.startswith(x) for x in prefixes) for sh in SHARED):
+        try:
+            allow = {p for p in P.reachable(own) if any(p.startswith(sh) for sh in SHARED)}
+        except Exception:
+            allow = {p for p in P.fns if any(p.startswith(sh) for sh in SHARED)}
+    memo_rule(P, R, rule, prefixes, what, allow)
     holders = global_state_holders(P)
     new = {h: v for h, v in holders.items() if _reviewed_holder(h, v[0]) is None}
     R.count("global_state_holders", len(holders))
-    scope = [f for p, f in P.fns.items() if not f.derived and "::tests" not in p and any(p.startswith(x) or p.startswith("<" + x) for x in prefixes)]
+    scope = own + [P.fns[p] for p in sorted(allow) if not P.fns[p].derived and "::tests" not in p]
     if not new:
         R.holds(rule, "global:no-new-holder", "process-wide mutable state is exactly the reviewed set (%d holders)" % len(holders))
         return
